@@ -25,6 +25,17 @@ def main():
         args.tier = "quick"
     common.bootstrap()
     os.chdir(common.VERIF)
+    # one scratch root per run: workers (forked, terminated without atexit) put their sandboxes
+    # under it and the parent removes it when the run ends
+    import atexit
+    import shutil
+    import tempfile
+
+    if not os.environ.get("VF_SCRATCH_ROOT"):
+        root = tempfile.mkdtemp(prefix="vf_run_")
+        os.environ["VF_SCRATCH_ROOT"] = root
+        parent = os.getpid()
+        atexit.register(lambda: os.getpid() == parent and shutil.rmtree(root, ignore_errors=True))
     sys.setrecursionlimit(10000)
     prop = args.prop.upper()
     from . import pool
